@@ -12,18 +12,18 @@ open RgVerif RgVerif.LineBuffer
 any reader, `buffer()` is exactly the window `[abs, abs + len)` of the input as seen through the
 binary-detection mode (`view`; the input itself when detection is off). -/
 theorem linebuffer_window (cfg : Config) (inp : Bytes) (script : List Step) (ops : List Op) :
-    (run (LB.init cfg) ⟨inp, script⟩ ops).1.buffer =
-      window (view cfg inp) (run (LB.init cfg) ⟨inp, script⟩ ops).1.abs
-        (run (LB.init cfg) ⟨inp, script⟩ ops).1.buffer.length := by
+    (run (LB.init cfg) ⟨inp, script, 0⟩ ops).1.buffer =
+      window (view cfg inp) (run (LB.init cfg) ⟨inp, script, 0⟩ ops).1.abs
+        (run (LB.init cfg) ⟨inp, script, 0⟩ ops).1.buffer.length := by
   obtain ⟨a, m, rest, h⟩ := run_inv cfg inp ops _ _ _ _ _ (Inv.init cfg inp script)
   exact h.window
 
 /-- The C02 case proper (binary detection off): the window is a window of the raw input. -/
 theorem linebuffer_window_raw (cfg : Config) (hb : cfg.binary = .none) (inp : Bytes)
     (script : List Step) (ops : List Op) :
-    (run (LB.init cfg) ⟨inp, script⟩ ops).1.buffer =
-      window inp (run (LB.init cfg) ⟨inp, script⟩ ops).1.abs
-        (run (LB.init cfg) ⟨inp, script⟩ ops).1.buffer.length := by
+    (run (LB.init cfg) ⟨inp, script, 0⟩ ops).1.buffer =
+      window inp (run (LB.init cfg) ⟨inp, script, 0⟩ ops).1.abs
+        (run (LB.init cfg) ⟨inp, script, 0⟩ ops).1.buffer.length := by
   have h := linebuffer_window cfg inp script ops
   simpa [view, hb] using h
 
@@ -34,7 +34,7 @@ under `Eager` allocation — by the allocation limit; when it returns `Ok(more)`
 `buffer()` ends with the line terminator unless the reader hit EOF (for a reader that returns 0
 only at EOF: no data is left) or `Quit` detection stopped the buffer. -/
 theorem fill_progress (cfg : Config) (inp : Bytes) (script : List Step) (ops : List Op) :
-    let st := run (LB.init cfg) ⟨inp, script⟩ ops
+    let st := run (LB.init cfg) ⟨inp, script, 0⟩ ops
     let res := st.1.fill st.2
     res.2.2 ≠ .fuel ∧
     (res.2.2 = .allocErr → cfg.alloc ≠ .eager) ∧
@@ -105,7 +105,7 @@ theorem roll_preserves (s : LB) (hp : s.pos ≤ s.buf.length) :
 buffer grows, fills, and is rolled; the window statement is about a run that does all of it. -/
 example :
     let cfg : Config := ⟨1, 10, .eager, .none⟩
-    let st := run (LB.init cfg) ⟨[97, 10, 98, 10], [.ret 1, .ret 1, .intr, .ret 1]⟩
+    let st := run (LB.init cfg) ⟨[97, 10, 98, 10], [.ret 1, .ret 1, .intr, .ret 1], 0⟩
       [.fill, .consume 2, .fill, .fill]
     st.1.buffer = [98, 10] ∧ st.1.abs = 2 := by decide
 
